@@ -64,7 +64,7 @@ SPEC = {
         "attribute_comma_roundtrips", "for_init_pointer_reads_as_expr",
         # function and struct definitions (Model/FormatDef + Model/ParseDef)
         "roundtrip_param_partial", "roundtrip_function_partial", "roundtrip_struct_partial", "default_arg_comma_roundtrips",
-        "struct_base_types_roundtrip",
+        "struct_base_types_roundtrip", "definition_header_tables_agree",
         # text of integer literals through C10's lexer model
         "literal_roundtrip_int"]] + [
         # "every literal reads back with the same value and type": the reading half is property C10's; its literal
